@@ -181,6 +181,58 @@ def check_anm(p, code, lab, assign, style, n, rs, ch=None):
     return compare(res, n, p, np.asarray(pop.mean, dtype=float), np.asarray(pop.covariance, dtype=float), d, "anm"), res["executions"], True
 
 
+BIGN = (1000, 100000)
+
+
+def bign_samplers():
+    """[(name, sampler(n, rs), mean, cov)] - three fixed 3-variable models for the large-request stage (real numpy)."""
+    code3 = SP.dag_list(3)[-1][0]
+    ch, _ = G.decode(3, code3)
+    W, means, variances = SP.model(3, ch, "generic", "float")
+    lib, ora = SP.assignment_dicts(3, (1, 4, 2), "tuple")
+    kw = dict(do_interventions=dict(lib[0]), noise_interventions=dict(lib[1]), shift_interventions=dict(lib[2]))
+    model = sempler.LGANM(W, means, variances)
+    pop = model.sample(population=True, **kw)
+    out = [("LGANM(W=%s).sample(n, do=%s, noise=%s, shift=%s, random_state=rs)" % (W.tolist(), lib[0], lib[1], lib[2]),
+            lambda n, rs: model.sample(n, random_state=rs, **kw), np.asarray(pop.mean, dtype=float), np.asarray(pop.covariance, dtype=float))]
+    pop0 = model.sample(population=True)
+    anm = build_anm(3, W, means, variances)
+    out.append(("ANM(W=%s, linear assignments, normal noise).sample(n, random_state=rs)" % (W.tolist(),),
+                lambda n, rs: anm.sample(n, random_state=rs), np.asarray(pop0.mean, dtype=float), np.asarray(pop0.covariance, dtype=float)))
+    B = np.array([[1, 0, 0], [-1, 1, 0], [1, 1, 0.5]], dtype=float)
+    mu = np.array([1.5, -2.25, 0.5])
+    dist = sempler.NormalDistribution(mu, B @ B.T)
+    out.append(("NormalDistribution(mean=%s, cov=%s).sample(n, random_state=rs)" % (mu.tolist(), (B @ B.T).tolist()), lambda n, rs: dist.sample(n, random_state=rs), mu, B @ B.T))
+    return out
+
+
+def check_bign(idx, n, rs):
+    """Large requests with the real generator: shape, reproducibility, and first / second moments within 10 / 12 standard errors of the
+    population law (a fixed, enumerated set of executions; under the specified law each bound fails with probability < 1e-20)."""
+    name, sampler, mean, cov = bign_samplers()[idx]
+    d = name.replace("(n,", "(%d," % n).replace("random_state=rs", "random_state=%d" % rs)
+    try:
+        X = np.asarray(sampler(n, rs), dtype=float)
+        X2 = np.asarray(sampler(n, rs), dtype=float)
+    except Exception as e:
+        return [("bign:raises", "%s raised %r" % (d, e))]
+    p = len(mean)
+    if X.shape != (n, p):
+        return [("bign:shape", "%s returned shape %s, expected (%d, %d)" % (d, X.shape, n, p))]
+    fails = []
+    if not np.array_equal(X, X2):
+        fails.append(("bign:not-reproducible", "%s twice: %d of %d rows differ" % (d, int(np.sum(np.any(X != X2, axis=1))), n)))
+    m = X.mean(axis=0)
+    C = np.cov(X, rowvar=False)
+    for j in range(p):
+        if abs(m[j] - mean[j]) > 10 * np.sqrt(cov[j, j] / n) + 1e-9:
+            fails.append(("bign:mean", "%s: sample mean of variable %d is %r, population mean %r (more than 10 standard errors away)" % (d, j, float(m[j]), float(mean[j]))))
+        for i in range(j + 1):
+            if abs(C[i, j] - cov[i, j]) > 12 * np.sqrt((cov[i, i] * cov[j, j] + cov[i, j] ** 2) / n) + 1e-9:
+                fails.append(("bign:covariance", "%s: sample covariance (%d,%d) is %r, population %r (more than 12 standard errors away)" % (d, i, j, float(C[i, j]), float(cov[i, j]))))
+    return fails[:3]
+
+
 def absorb(acc, kind, case, fails, nexec, decided, nontrivial):
     acc.states += 1
     acc.traces += max(1, nexec)
@@ -283,6 +335,12 @@ def run_unit(unit):
             f, ne, dec = check_nd(3, B, [1.5, -2.25, 0.5], n, 1)
             absorb(acc, "nd", {"p": 3, "B": B, "mu": [1.5, -2.25, 0.5], "n": n, "rs": 1}, f, ne, dec, True)
             acc.extra["large_n_configs"] += 3
+        for idx in range(3):
+            for n in BIGN:
+                for rs in (0, 1):
+                    f = check_bign(idx, n, rs)
+                    absorb(acc, "bign", {"idx": idx, "n": n, "rs": rs}, f, 2, True, True)
+                    acc.extra["real_rng_large_requests"] += 1
     return acc.out()
 
 
@@ -290,6 +348,8 @@ def replay(kind, case):
     if kind == "anm-wide":
         from mc.checks import _g
         return check_anm(_g.WIDE_P, None, case["lab"], tuple(case["assign"]), "callable", 1, None, ch=_g.wide_targeted()[case["k"]])[0]
+    if kind == "bign":
+        return check_bign(case["idx"], case["n"], case["rs"])
     if kind == "nd":
         return check_nd(case["p"], case["B"], case["mu"], case["n"], case["rs"], case.get("cv", "ignore"))[0]
     if kind == "lganm":
@@ -306,7 +366,7 @@ def describe(tier, seed):
                 "styles (n in {1,2}); ANM with linear assignments and noise.normal for every DAG p<=3 x 2 labelings x all 7^p assignments without a bare shift+noise "
                 "overlap x {noise.normal callables, constants}: law must equal the LGANM population law under the same interventions; n in {10, 50} spot "
                 "configurations; 80 targeted 10-node colliders whose parents mix node indices below and above 8 (ANM vs LGANM); thorough adds every third 4-node DAG with <=2 intervened variables. Oracle: shape (n,p); X(0) = 1 mu_pop^T; sum_c vec R_c vec R_c^T = "
-                "I_n (x) Sigma_pop; variance-0 targets constant. mu_pop, Sigma_pop are sample(population=True) under the same interventions. non-trivial: intervened / correlated",
+                "I_n (x) Sigma_pop; variance-0 targets constant. mu_pop, Sigma_pop are sample(population=True) under the same interventions. Large requests (n in {1000, 100000}, real numpy, seeds 0 and 1, three 3-variable models): shape, reproducible, sample mean / covariance within 10 / 12 standard errors of the population law. non-trivial: intervened / correlated",
         "exhaustive": True,
         "bounds": {"p_max": 4 if tier == "thorough" else 3, "n_exhaustive": 3, "n_spot": [10, 50]},
         "assumptions": ["numpy's standard_normal yields i.i.d. N(0,1): the 1/sqrt(n) rate is then a theorem, nothing is estimated",
